@@ -23,8 +23,8 @@ type monC18 struct {
 	ErrSince [2]bool     // the peer reported an error since LastSent was sent
 	Markers  [][]byte
 	Owner    []int
-	NPlain   []int // per marker: number of data messages / plaintext messages that carried it unmarked
-	NResent  []int // per marker: number of data messages that carried it with the resent prefix
+	NPlain   []int     // per marker: number of data messages / plaintext messages that carried it unmarked
+	NResent  []int     // per marker: number of data messages that carried it with the resent prefix
 	Disc     [][]byte  // disconnect messages put on the wire
 	DiscSSID [][8]byte // session they belong to
 	Steps    int
